@@ -108,6 +108,7 @@ func Table() map[string]*Property {
 	})
 	add(&Property{
 		ID: "C14",
+		Extra: func(ctx *Ctx) ([]driver.ObResult, error) { return flatPredConformance(ctx, "contains.canEqual", "derive.IsComparable") },
 		Groups: []Group{{Layer: "O", Funcs: []string{"contains.gen.genFuncFor", "unique.gen.genFuncFor", "set.gen.genFuncFor", "union.gen.genMap", "union.gen.genSlice",
 			"intersect.gen.genMap", "intersect.gen.genSlice", "filter.gen.genFuncFor", "takewhile.gen.genFuncFor", "all.gen.genFuncFor", "any.gen.genFuncFor"}, Only: semantic}},
 		Assumptions: append([]string{
@@ -151,6 +152,7 @@ func Table() map[string]*Property {
 	})
 	add(&Property{
 		ID:     "C03",
+		Extra: func(ctx *Ctx) ([]driver.ObResult, error) { return flatPredConformance(ctx, "equal.canEqual") },
 		Groups: []Group{{Layer: "O", Funcs: []string{"compare.gen.field", "compare.gen.genStatement", "compare.gen.genFunc", "compare.gen.genCurriedFunc"}, Only: semantic}},
 		Assumptions: append([]string{
 			"the specification function CmpTop is taken from the property: false<true, numeric <, byte-wise strings, real before imaginary part, nil first, shorter first, then lexicographic by position / field, maps of equal size through their sorted key enumerations; a different total order would fail the functional clause although the property allows it",
@@ -270,6 +272,7 @@ func Table() map[string]*Property {
 	})
 	add(&Property{
 		ID:     "C05",
+		Extra: func(ctx *Ctx) ([]driver.ObResult, error) { return flatPredConformance(ctx, "deepcopy.canCopy") },
 		Groups: []Group{{Layer: "O", Funcs: []string{"deepcopy.gen.genField", "deepcopy.gen.genFunc", "clone.gen.genFuncFor"}, Only: semantic}},
 		Assumptions: append([]string{
 			"'equal copy with nil-ness reproduced': the destination after the call is EqC/EqTop-equal to the source (SMT obligations): genField and genStatement print statements that assign their lvalue operand; a call of such a generator is rendered '<operand> = ĦS(...)' and the generator itself is checked on a wrapper returning the operand's final value; slices and maps filled in place are described by final(dst)",
@@ -285,6 +288,7 @@ func Table() map[string]*Property {
 	})
 	add(&Property{
 		ID:     "C18",
+		Extra: func(ctx *Ctx) ([]driver.ObResult, error) { return flatPredConformance(ctx, "derive.IsComparable") },
 		Groups: []Group{{Layer: "O", Funcs: []string{"mem.gen.genFunc"}, Only: semantic}},
 		Assumptions: append([]string{
 			"f is a deterministic function of the structure of its arguments: result(i, f, args) is a function, and (hash-bucket path) Equal arguments give equal results",
@@ -299,6 +303,7 @@ func Table() map[string]*Property {
 	})
 	add(&Property{
 		ID:     "C02",
+		Extra: func(ctx *Ctx) ([]driver.ObResult, error) { return flatPredConformance(ctx, "equal.canEqual") },
 		Groups: []Group{{Layer: "O", Funcs: []string{"equal.gen.field", "equal.gen.genStatement", "equal.gen.genFunc", "equal.gen.genCurriedFunc"}, Only: semantic}},
 		Assumptions: []string{
 			"A-int; A-cfg (a hole replaced by a representative of its grammar class parses the same way); A-param (go/types is parametric in opaque named types)",
